@@ -1,18 +1,18 @@
 CONSTANTS
-  Mods <- DiamondMods
-  Imports <- DiamondImports
-  Targets <- DiamondTargets
-  Variants <- V3
-  BodyOf <- Body3
+  Mods <- PairMods
+  Imports <- PairImports
+  Targets <- PairTargets
+  Variants <- V124
+  BodyOf <- Body124
   MaxOps = 5
-  MaxT = 0
+  MaxT = 2
   AstHash = TRUE
-  MaxTorn = 0
+  MaxTorn = 1
   TransitiveKey = FALSE
   DeepHeader = FALSE
   StoreGated = TRUE
-  WithCache = FALSE
-  WithOutputs = TRUE
+  WithCache = TRUE
+  WithOutputs = FALSE
 INIT Init
 NEXT Next
 VIEW View
